@@ -118,7 +118,12 @@ extern "C" int LLVMFuzzerTestOneInput(const uint8_t *data, size_t size)
 	}
 	files_off(I);
 	// clause (4)
-	if (ci.failed) {
+	if (ci.failed && known_state_unnumbered(I)) {
+		g_cnt["skipped_known_unnumbered_solutions_survive_reload"]++;
+		g_I = 0; g_inlib++; delete I; g_inlib--;
+		g_I = new FI;
+		g_fresh = false;
+	} else if (ci.failed) {
 		reload_and_probe(I, what, h);     // leaves g_fresh = false: the next iteration starts with its own load
 	} else {
 		load_small(I, "after a successful call");
